@@ -21,7 +21,8 @@ import (
 //	                                       without Retry and with Retry at every position (1928 chains, 8 per case)
 //	[.., +nRandom)        random          chains with repetition allowed and up to two Retry layers
 //	[.., +nDelay)         delay-seq       DelayOnError alone over failure/success sequences, closed form
-//	[.., +nThrottle)      throttle        Throttle alone: start times vs. the configured rate
+//	[.., +nThrottle)      throttle        Throttle alone: start times vs. the configured rate, backlog from creation on
+//	[.., +nArrivals)      throttle-arrivals  Throttle alone: backlogs arriving after idle / under-used phases
 const (
 	chainsPerCase  = 8
 	singleKinds    = 8
@@ -29,7 +30,7 @@ const (
 )
 
 type layout struct {
-	nSingle, nEnum, nRandom, nDelay, nThrottle int
+	nSingle, nEnum, nRandom, nDelay, nThrottle, nArrivals int
 	singlePerKind                              int
 	scriptsPerChain                            int
 }
@@ -41,13 +42,14 @@ func layoutFor(tier string) layout {
 		nRandom:         vlib.TierN(tier, 96, 16000),
 		nDelay:          vlib.TierN(tier, 96, 16000),
 		nThrottle:       vlib.TierN(tier, 48, 320),
+		nArrivals:       vlib.TierN(tier, 96, 960),
 		scriptsPerChain: vlib.TierN(tier, 8, 240),
 	}
 	l.nSingle = singleKinds * l.singlePerKind
 	return l
 }
 
-func (l layout) total() int { return l.nSingle + l.nEnum + l.nRandom + l.nDelay + l.nThrottle }
+func (l layout) total() int { return l.nSingle + l.nEnum + l.nRandom + l.nDelay + l.nThrottle + l.nArrivals }
 
 func init() {
 	if len(enumChains)%chainsPerCase != 0 {
@@ -64,7 +66,11 @@ func init() {
 			"without Retry and with Retry at every position (1928 chains, each with 8 (quick) / 240 (thorough) random scripts and parameter draws); " +
 			"random: chains of 1..3 simple middlewares with repetition plus 0..2 Retry layers. " +
 			"delay-seq: DelayOnError alone, real-valued Multiplier in [1,3], failure/success sequences over redelivered messages, closed form min(Initial*Mult^(k-1),Max) within 1 ppm. " +
-			"throttle: periods 10..20 ms, 8..16 starts from 1..3 goroutines sharing one Throttle; start i (1-based) must not precede creation+i*period. " +
+			"throttle: periods 10..20 ms, 8..16 starts from 1..3 goroutines sharing one Throttle, backlog from creation on (30%: one pause of 3 periods); " +
+				"throttle-arrivals: periods 2..8 ms, count 1..100, 1..3 arrival groups one after another, each a backlog of 6..14 messages arriving at once on 1, 2..4 or one-per-message goroutines sharing the Throttle, " +
+				"preceded by nothing (backlog from creation), an idle phase of 3..14 periods, or a trickle of 3..6 single messages 2..3 periods apart (traffic below the rate). " +
+				"Both throttle classes record per call the bracket [invoked, handler started] and judge: start i (1-based) must not precede creation+i*period (throttle-rate); " +
+				"M >= 5 starts that provably all happened inside one window need more than (M-4) periods (throttle-burst: a time.Ticker saves at most one tick, (M-3) periods is attained by correct code with a late tick, one period of tolerance). " +
 			"A case is non-trivial when at least one documented effect was exercised (id copied, panic recovered, error ignored, ack-at-start seen, deadline seen, delay applied, retry made, rate wait seen); " +
 			"distinct = distinct (chains, parameters, script shapes, observed results) hashes.",
 		Assumptions: []string{
@@ -72,7 +78,7 @@ func init() {
 			"DelayOnError configurations have InitialInterval <= MaxInterval and InitialInterval >= 100ms (so ns truncation stays far below 1 ppm); after a success the next message is a fresh one",
 			"Timeouts that may expire (2..6 ms, handler waits for the deadline) are only generated when no Timeout is outside a Retry; all other Timeouts are >= 1 min",
 			"the circuit breaker stays closed (default settings up to 5 handler calls, otherwise ReadyToTrip=never); a state change makes the case inconclusive",
-			"Throttle: only lower bounds on start times are judged (no upper bounds on durations)",
+			"Throttle: only lower bounds on start times are judged (no upper bounds on durations); the reference for 'configured rate' is the time.Ticker the middleware documents itself with (one start per duration/count, at most one tick saved while idle); a clock-read-to-channel-send gap inside one runtime timer firing of more than one period, twice within one window, is assumed not to happen",
 			"outputs are compared by pointer identity and order, errors by identity (==); nil vs. empty output slices are not distinguished",
 		},
 		Run: run,
@@ -97,5 +103,9 @@ func run(e *vlib.Env) vlib.Result {
 	if i < l.nDelay {
 		return runDelaySeq(e)
 	}
-	return runThrottle(e)
+	i -= l.nDelay
+	if i < l.nThrottle {
+		return runThrottle(e)
+	}
+	return runThrottleArrivals(e)
 }
